@@ -520,7 +520,7 @@ PLANS = {
     "C20": [MIRI, M(["readers"], 6, 60), M(["slow"], 2, 20, seed_off=5), M(["metricsrace", "abort"], 6, 40, seed_off=6), {"engine": "gen", "actors": (16, 120), "rounds": (1, 2), "skip_negatives": True}, S(["metrics", "traffic", "kill", "faults"], 15000, 120000)],
     "C17": [M(["blocking"], 8, 90), M(["general"], 6, 60, seed_off=77), M(["hogged", "dropsend", "hookblocking"], 11, 60, seed_off=13), M(["bigmsg"], 1, 3, seed_off=3, abort_is_violation="C17.same_rules")],
     "C19": [M(["blocking", "general"], 6, 40), {"engine": "gen", "actors": (60, 400), "rounds": (1, 3)}, S(["traffic", "faults"], 9000, 60000)],
-    "C18": [{"engine": "mtdiff", "profiles": ["notime", "hookblocking"], "args": (["--profiles", "notime,hookblocking", "--secs", 5], ["--profiles", "notime,hookblocking", "--secs", 30]), "timeout": (240, 600)}, {"engine": "featdiff", "profiles": ["traffic", "backpressure", "lifecycle", "kill", "refs", "idle", "timeouts", "faults", "metrics", "overlap"], "count": (1500, 20000)}],
+    "C18": [{"engine": "mtdiff", "profiles": ["notime", "hookblocking", "slow"], "args": (["--profiles", "notime,hookblocking,slow", "--secs", 6], ["--profiles", "notime,hookblocking,slow", "--secs", 30]), "timeout": (240, 600)}, {"engine": "featdiff", "profiles": ["traffic", "backpressure", "lifecycle", "kill", "refs", "idle", "timeouts", "faults", "metrics", "overlap"], "count": (1500, 20000)}],
 }
 
 # minimum number of non-vacuous evaluations of the key clauses below which a run is inconclusive
